@@ -70,7 +70,7 @@ def rule_occupant_writers(ck, rid="C13.R2"):
             continue
         n += 1
         ck.require(f.qual in allowed_w, rid, f, t, ok=f"occupant written by {f.qual}",
-                   bad=f"{f.qual} writes the occupant of a station directly: the refusal / session check of plugin and unplug is bypassed", sink=f"ev-writer:{f.qual}")
+                   bad=f"{f.qual} writes the occupant of a station directly: the refusal / session check of plugin and unplug is bypassed", sink=f"ev-writer:{f.qual}", positive=True)
     ck.floor(rid, n, 3, "writers of BaseEVSE._ev")
     allowed_c = {"ChargingNetwork.unplug", "StochasticNetwork.unplug"}     # the contrib network overrides unplug (its guards are C19.R4/R9)
     m = 0
@@ -82,7 +82,7 @@ def rule_occupant_writers(ck, rid="C13.R2"):
         m += 1
         ck.require(f.qual in allowed_c, rid, f, c, ok="EVSE.unplug() called from the session-checked network unplug",
                    bad=f"{f.qual} detaches an occupant by calling EVSE.unplug() itself: an EV can be removed without its own unplug event / session check "
-                       f"(e.g. evicted by a newcomer instead of the newcomer being refused)", sink=f"evse-unplug-caller:{f.qual}")
+                       f"(e.g. evicted by a newcomer instead of the newcomer being refused)", sink=f"evse-unplug-caller:{f.qual}", positive=True)
     ck.floor(rid, m, 1, "call sites of the EVSE-level unplug()")
 
 
